@@ -9,7 +9,7 @@ from ..core import Violation, guard
 from ..io_util import BudgetReader, ReadBudgetExceeded
 
 ID = 'C06'
-RULE = ('dumps: small version-2 and version-3 files (<= 14 records from scenario programs so that traces exist; v3 with '
+RULE = ('dumps: small version-2 and version-3 files (<= 14 records from scenario programs so that traces exist, timestamps increasing, decreasing or pairwise inverted; v3 with '
         'fillers, 1..3 chunks, <= 4 blocks incl. logs) x cut offsets: quick = every structural boundary (sections, chunk headers, blocks, record and record-field boundaries) +-1 and 40 '
         'pseudo-random offsets; thorough = EVERY offset 0..len of every generated dump. The reader counts read calls '
         'and raises after 8*len+4096 (healthy parsers need <= ~2*len), which turns "spins at end-of-file" into a '
@@ -18,7 +18,9 @@ RULE = ('dumps: small version-2 and version-3 files (<= 14 records from scenario
         'prefix of the complete dump\'s; every trace is rendered when yielded and again after the stream ended (text and '
         'window length must agree); print_with_count(gen, c) prints exactly the first c lines for c in {0, 1, k, total, '
         'total+5, -1}; sub-check cli: the four listing commands of the command line with `-c N` / `--count N` print exactly the '
-        'first N items of what they print without the option (N in {0, 1, k, total, total+5}). Non-trivial: the cut falls strictly inside a record, the thread map, a filler, a chunk header or '
+        'first N items of what they print without the option (N in {0, 1, k, total, total+5}); sub-check fresh_process: one call of every '
+        'BSD/Mach/other ordinary decoder in one dump, listed by `python -m pykdebugparser traces` in fresh interpreters with different '
+        'string-hash seeds: identical to the in-process listing, and `-c N` prints its first N lines. Non-trivial: the cut falls strictly inside a record, the thread map, a filler, a chunk header or '
         'a block; distinct by (file digest, offset).')
 ASSUMPTIONS = ['linear reading is decided by a read-call budget of 8*len+4096 on a counting reader',
                'the first record of a dump does not begin with 0x00 (K1, see C02)',
@@ -34,13 +36,23 @@ def stream_events(spec):
     return evs
 
 
-def records_of(evs):
-    return [kmodel.ev_record((1001 + 7 * k, tid, (EV.eid(code) & ~3) | q, data)) for k, (tid, code, q, data) in enumerate(evs)]
+def records_of(evs, ts_mode=0):
+    """ts_mode 0: increasing timestamps; 1: decreasing; 2: every other pair of neighbours inverted (records merged from
+    several cpu buffers are not sorted; the order of a dump is the order of its records)"""
+    n = len(evs)
+
+    def ts(k):
+        if ts_mode == 1:
+            return 1001 + 7 * (n - k)
+        if ts_mode == 2:
+            return 1001 + 7 * (k ^ 1 if k % 4 < 2 else k)
+        return 1001 + 7 * k
+    return [kmodel.ev_record((ts(k), tid, (EV.eid(code) & ~3) | q, data)) for k, (tid, code, q, data) in enumerate(evs)]
 
 
 def build(spec):
     """-> (blob, structural boundaries, kind)"""
-    recs = records_of(stream_events(spec))
+    recs = records_of(stream_events(spec), spec.get('ts_mode', 0))
     tm = [(SC.PROGRAM_TIDS[i], 100 * (i + 1), b'P%d_main' % i) for i in range(len(spec['programs']))]
     if spec['version'] == 2:
         pad = spec['pad']
@@ -188,12 +200,42 @@ def prop_cli_count(ctx, case):
             ctx.note([blob, cmd, c, case['show_tid']], nontrivial=0 < c < total, classes=['cli-count', cmd])
 
 
-PROPS = {'cut': prop_cut, 'count': prop_count, 'cli_count': prop_cli_count}
+def prop_fresh_process(ctx, case):
+    """count limiting across invocations: `traces -c N DUMP` started as a fresh interpreter (whatever string-hash seed
+    it draws) prints the first N lines of what another fresh `traces DUMP` prints"""
+    seed = case['seed']
+    names = SC.ordinary_names()
+    evs = []
+    for i, n in enumerate(names):
+        if (i + seed) % case['stride'] == 0:
+            evs += [SC.ev(0x42, n, 1, seed + 4096 + i, 0), SC.ev(0x42, n, 2, seed + 4096 + i, 1)]
+    blob = kmodel.v2_file([(0x42, 7, b'showcase')], 0, records_of(evs))
+    o = {'color': False, 'show_tid': True}
+    ref = guard(CLI.reference_items, 'traces', o, blob)
+    outs = {}
+    for hs in case['hashseeds']:
+        out, err, rc = guard(CLI.invoke_subprocess, 'traces', o, blob, hs)
+        if rc != 0:
+            raise Violation('fresh-process:fails', f'`python -m pykdebugparser traces` (PYTHONHASHSEED={hs}) exits {rc}: {err}')
+        outs[hs] = out
+        if out != CLI.text_of(ref):
+            gl, el = out.split('\n'), CLI.text_of(ref).split('\n')
+            k = next((i for i in range(min(len(gl), len(el))) if gl[i] != el[i]), min(len(gl), len(el)))
+            raise Violation('fresh-process:differs', f'a fresh interpreter with PYTHONHASHSEED={hs} prints line {k} as {gl[k:k + 1]}, this process lists {el[k:k + 1]} '
+                                                     f'({len(gl) - 1} vs {len(el) - 1} lines)')
+    n = len(ref) // 2
+    out, err, rc = guard(CLI.invoke_subprocess, 'traces', dict(o, count=n), blob, case['hashseeds'][-1] + 1)
+    if rc != 0 or out != CLI.text_of(ref[:n]):
+        raise Violation('fresh-process:count', f'`traces -c {n}` in a fresh interpreter does not print the first {n} lines of the unlimited listing (exit {rc})')
+    ctx.note([seed, case['stride'], case['hashseeds']], nontrivial=len(ref) >= 10, classes=['fresh-process', f'lines:{min(len(ref) // 100 * 100, 400)}+'])
+
+
+PROPS = {'cut': prop_cut, 'count': prop_count, 'cli_count': prop_cli_count, 'fresh_process': prop_fresh_process}
 
 
 def spec_strategy(version):
     base = {'programs': SC.programs_strategy(1, 2, 3), 'schedule': st.lists(st.integers(0, 1), max_size=20),
-            'max_events': st.integers(2, 14), 'version': st.just(version)}
+            'max_events': st.integers(2, 14), 'version': st.just(version), 'ts_mode': st.sampled_from([0, 0, 1, 2])}
     if version == 2:
         base['pad'] = st.sampled_from([0, 0, 3, 8, 64])
     else:
@@ -213,3 +255,6 @@ def run(ctx):
     for version in (2, 3):
         clis = st.fixed_dictionaries({'spec': spec_strategy(version), 'k': st.integers(0, 40), 'show_tid': st.sampled_from([None, True, False])})
         ctx.run_given('cli_count', clis, prop_cli_count, ctx.n(20, 100))
+    if ctx.shard == 0:
+        fresh = [{'seed': ctx.seed * 7 + r, 'stride': 1 if r == 0 else 3, 'hashseeds': [1 + 2 * r, 2 + 2 * r]} for r in range(ctx.n(1, 4))]
+        ctx.run_enum('fresh_process', fresh, prop_fresh_process)
